@@ -48,12 +48,12 @@ type reqJ struct {
 	Plen       int    `json:"plen,omitempty"`
 	Chunk      string `json:"chunk,omitempty"`
 	PayloadHex string `json:"payloadHex,omitempty"`
-	Stream     string `json:"stream,omitempty"`  // hex: raw bytes, framed by the protocol tables
+	Stream     string `json:"stream,omitempty"`     // hex: raw bytes, framed by the protocol tables
 	AbortAfter int64  `json:"abortAfter,omitempty"` // the client resets the connection after receiving this many bytes of the reply (read-type requests only)
-	Announce   uint64 `json:"announce,omitempty"` // payload ops: the length field says this (> bytes sent): the frame is truncated by construction
-	Cut        int    `json:"cut,omitempty"`     // send only the first Cut bytes of the frame (>0)
-	Stall      bool   `json:"stall,omitempty"`   // with Cut: stay silent afterwards instead of hanging up (the read timeout must end the connection)
-	DelayMs    int    `json:"delayMs,omitempty"` // wait before sending this request
+	Announce   uint64 `json:"announce,omitempty"`   // payload ops: the length field says this (> bytes sent): the frame is truncated by construction
+	Cut        int    `json:"cut,omitempty"`        // send only the first Cut bytes of the frame (>0)
+	Stall      bool   `json:"stall,omitempty"`      // with Cut: stay silent afterwards instead of hanging up (the read timeout must end the connection)
+	DelayMs    int    `json:"delayMs,omitempty"`    // wait before sending this request
 }
 
 type connJ struct {
@@ -126,10 +126,10 @@ type sessionEnv struct {
 	chunkTag  map[string]byte
 
 	// concurrent mode: this env belongs to one connection
-	hung        bool     // a request of this world got no answer within the waiting time
-	priv        []string // its private subtree
+	hung        bool            // a request of this world got no answer within the waiting time
+	priv        []string        // its private subtree
 	ownChunks   map[string]bool // names of the payloads this connection uploaded
-	shared      []nodeJ  // the static rest of the tree
+	shared      []nodeJ         // the static rest of the tree
 	staticViews []map[string]interface{}
 	barrier     *barrier
 }
